@@ -3,7 +3,7 @@ working tree, running TLC (model checking, simulation, trace validation),
 known findings, replay files, evidence."""
 import glob, hashlib, json, os, re, shutil, subprocess, sys, time
 
-ROOT = '/verif'
+ROOT = os.path.dirname(os.path.dirname(os.path.abspath(__file__)))
 REPO = '/repo'
 WORK = os.path.join(ROOT, '.work')
 SPEC = os.path.join(ROOT, 'spec')
